@@ -164,7 +164,7 @@ theorem C17_no_leak (ao : AliasOracle) (s : St) (r : Run) (h : s.Idle) : (execRu
 /-- Storage-level sampling by a size-based calculator follows the same rule on the calculator's ratio. -/
 theorem C17_s3_same_rule (r d : Q) :
     s3ShouldSample (some r) d = keepDecision false { rate := r } d ∧ s3ShouldSample none d = true := by
-  simp [s3ShouldSample, keepDecision, rateAlways_eq, drawKeeps_eq]
+  simp [s3ShouldSample_eq, keepDecision]
 
 /-- number of recordings handed to the cassette to be saved -/
 def saves (l : List Ev) : Nat := (l.filter (fun e => match e with | .save _ => true | _ => false)).length
